@@ -130,7 +130,7 @@ fn uniform(r: &mut Rng, m: &Model, st: &Sched, exclude: Option<usize>) -> Op {
         O_SEND => Op::ka(O_SEND, *r.pick(&empty) as i64),
         O_NEXT => Op::ka(O_NEXT, *r.pick(&pullers) as i64),
         // (rarely: a fast-forward across 2^15 / 2^16 frames, where internal counters might wrap or rebase)
-        O_BURST => Op::kab(O_BURST, *r.pick(&pullers) as i64, if r.chance(1, 400) { *r.pick(&[32_767i64, 32_768, 40_000, 65_536, 66_000]) } else { r.range(2, 12) }),
+        O_BURST => Op::kab(O_BURST, *r.pick(&pullers) as i64, if r.chance(1, 2500) { *r.pick(&[32_767i64, 32_768, 40_000, 65_536, 66_000]) } else { r.range(2, 12) }),
         O_DROP => Op::ka(O_DROP, pick_drop(r, m, &live) as i64),
         O_DROP_BUS => Op::k(O_DROP_BUS),
         _ => Op::k(O_PROBE),
@@ -446,9 +446,9 @@ impl Scenario for BusScenario {
     }
     fn runs(&self, tier: &str) -> u64 {
         if tier == "quick" {
-            1_500_000
+            1_000_000
         } else {
-            60_000_000
+            20_000_000
         }
     }
     fn run(&self, src: &mut Source, obs: &mut Observer) -> Result<(), Violation> {
